@@ -47,6 +47,7 @@ REAL_VS_STUB = (
 
 
 VIOLATION_PRINTED = False
+PREFIX_MINIMISED = False
 
 
 def log(msg):
@@ -391,7 +392,9 @@ def process_violation(prop, raw):
             if hits:
                 alone = True
     final = path
-    if not alone and any("reproduces only after" in n for n in note):
+    global PREFIX_MINIMISED
+    if not alone and any("reproduces only after" in n for n in note) and not PREFIX_MINIMISED:
+        PREFIX_MINIMISED = True  # once per check run: each attempt replays the worker's earlier runs
         final = minimise_prefix(path)
     if alone:
         minp = path.replace(".json", ".min.json")
@@ -433,7 +436,7 @@ def process_violation(prop, raw):
     return final, alone, rf
 
 
-def minimise_prefix(path, budget_s=420, max_tests=48):
+def minimise_prefix(path, budget_s=150, max_tests=24):
     """A violation that needs the runs its worker executed before: shrink that list of run
     indexes (drop chunks while the class still reproduces in a fresh process)."""
     rf = json.load(open(path))
@@ -533,7 +536,7 @@ def write_evidence(prop, tier, seed, level, coverage, assumptions, wall, nviol):
 
 C18_PLAN = {
     "quick": dict(runs=16000, scheds=4, cold=128, selftest=192, miri_light=4, miri_full=2, miri_conv=16, shadow=4000, budget=900),
-    "thorough": dict(runs=750000, scheds=4, cold=2048, selftest=2048, miri_light=192, miri_full=48, miri_conv=192, shadow=300000, budget=7200),
+    "thorough": dict(runs=750000, scheds=4, cold=2048, selftest=2048, miri_light=192, miri_full=48, miri_conv=192, miri_fit=32, shadow=300000, budget=7200),
 }
 
 
@@ -871,8 +874,9 @@ def check_c18(tier, seed):
         lo, lf = miri_run("light", [base + k for k in range(plan["miri_light"])], plan["budget"])
         fo, ff = miri_run("full", [base + 5000 + k for k in range(plan["miri_full"])], plan["budget"])
         co, cf = miri_run("conv", [base + 9000 + k for k in range(plan["miri_conv"])], plan["budget"])
-        miri["light_seeds"], miri["full_seeds"], miri["conv_seeds"] = lo, fo, co
-        for shape, s, txt in lf + ff + cf:
+        fi, fif = miri_run("fit", [base + 13000 + k for k in range(plan.get("miri_fit", 0))], plan["budget"])
+        miri["light_seeds"], miri["full_seeds"], miri["conv_seeds"], miri["fit_seeds"] = lo, fo, co, fi
+        for shape, s, txt in lf + ff + cf + fif:
             miri_viol += 1
             ub = "Undefined Behavior" in txt
             miri["ub_reports"] += ub
@@ -889,7 +893,7 @@ def check_c18(tier, seed):
     unlisted = report("C18", raws) + real_hangs + st["divergences"] + miri_viol + cold_div
     wall = time.time() - t0
     execs = agg["executions"] + cold_execs + shadow_stats["executions"]
-    miri_ok = miri.get("light_seeds", 0) + miri.get("full_seeds", 0) + miri.get("conv_seeds", 0)
+    miri_ok = miri.get("light_seeds", 0) + miri.get("full_seeds", 0) + miri.get("conv_seeds", 0) + miri.get("fit_seeds", 0)
     coverage = {
         "evaluations": execs + miri_ok,
         "distinct_nontrivial": n_nontrivial + miri_ok,
